@@ -15,9 +15,13 @@ fn judge(cfg: &Cfg, ops: &[Op], order: (u64, u64), t: &mut Tally) {
     t.evaluations += 1;
     t.states += 1;
     t.transitions += ex.results.len() as u64;
-    if ex.panicked().is_some() || !ex.results.iter().all(|r| r.is_ok()) {
-        t.count("histories_with_rejections", 1);
+    if ex.panicked().is_some() || !ex.results.last().map(|r| r.is_ok()).unwrap_or(false) {
+        t.count("histories_without_a_file", 1);
         return;
+    }
+    if !ex.results.iter().all(|r| r.is_ok()) {
+        // rejected calls stay in the history: the oracle is applied to the accepted samples
+        t.count("histories_with_rejected_calls", 1);
     }
     let e = expect_from(cfg, ops, &ex.results);
     let m = parse_movie(&ex.bytes, "prog");
@@ -76,14 +80,24 @@ pub fn check(ctx: &Ctx) -> i32 {
                             ops.push(if it.cts0 > 0.0 { Op::WVD { pts: T(pts), dts: T(dts), data: Bytes::new(d), key: i == 0 } } else { Op::WV { pts: T(pts), data: Bytes::new(d), key: i == 0 } });
                         }
                         let mut ok = true;
+                        let mut with_reject = vec![];
                         for j in 0..na {
                             let at = first_pts + lead + j as f64 * astep;
                             ok &= tick_is_robust(at);
                             ops.push(Op::WA { pts: T(at), data: Bytes::new(audio_frame(it.cfg.audio.as_ref().unwrap().codec, j as u32, 6).0) });
+                            if j == 0 {
+                                // variant: after the first audio frame a frame with a later
+                                // timestamp and an invalid payload is submitted and rejected
+                                with_reject = ops.clone();
+                                with_reject.push(Op::WA { pts: T(at + 0.5), data: Bytes::new(vec![0x03]) });
+                            } else {
+                                with_reject.push(ops.last().unwrap().clone());
+                            }
                         }
                         k += 1;
                         if ok {
-                            judge(&it.cfg, &ops, (idx as u64, k), t);
+                            judge(&it.cfg, &ops, (idx as u64, 2 * k), t);
+                            judge(&it.cfg, &with_reject, (idx as u64, 2 * k + 1), t);
                         } else {
                             t.count("skipped_tie_sensitive_timestamps", 1);
                         }
